@@ -135,7 +135,8 @@ func runC02(c *Check) {
 		}
 		// R3
 		isDelete := func(n *Node) bool { return strings.HasSuffix(CallName(n), "Cache[_]).DeleteItem") }
-		heightOK := g.Select(ErrNilEdge(func(t *Term) bool { return t.IsCall("pkg/store.Store).SetHeight") }))
+		isSetHeight := func(t *Term) bool { return t.IsCall("pkg/store.Store).SetHeight") }
+		heightOK := g.Select(ErrNilEdge(func(t *Term) bool { return isSetHeight(t) || p.nilImpliesOK(t, isSetHeight, 2) }))
 		if len(g.Select(isDelete)) > 0 {
 			c.Decide("C02-R3", fnShort(step)+" ⟂ SetHeight-ok<DeleteItem", fn, posOf(g, isDelete), "cache entries are evicted only after the height write succeeded",
 				"a cache entry can be evicted before the block is committed: the block is lost and sync stalls", g, g.PrecedeSince(isPick, nodeSet(heightOK), isDelete))
@@ -314,6 +315,27 @@ func runC02(c *Check) {
 	}
 	for _, s := range steps {
 		allowedFns[fnName(s)] = true
+	}
+	// an unexported helper that only the allowed writers call is part of them
+	for changed := true; changed; {
+		changed = false
+		for _, f := range p.Funcs {
+			pk := fnPkg(f)
+			if pk == nil || pk.Pkg.Path() != rootPath+"/block" || allowedFns[fnName(f)] || f.Parent() != nil || (f.Object() != nil && f.Object().Exported()) {
+				continue
+			}
+			callers := callersOf(p, f)
+			all := len(callers) > 0
+			for _, cl := range callers {
+				if !allowedFns[fnName(topParent(cl))] {
+					all = false
+				}
+			}
+			if all {
+				allowedFns[fnName(f)] = true
+				changed = true
+			}
+		}
 	}
 	n := 0
 	for _, mn := range mods {
